@@ -95,7 +95,10 @@ def main(argv=None):
         fw.validate_evidence(ev)
     except Exception as e:  # schema-invalid evidence is a harness error
         print('HARNESS ERROR: evidence does not validate:', e)
-        return 2
+        # ... unless violations were found: a tree that is broken badly
+        # enough (every execution crashes at once) leaves counters such as
+        # 'transitions' at 0; the violations above are what counts then
+        return 1 if new else 2
     cov = ev['coverage']
     print(f'{prop} {args.tier}: evaluations={cov["evaluations"]} '
           f'distinct={cov["distinct_nontrivial"]} '
